@@ -39,7 +39,7 @@ let chunk_txt = function
   | CMessage d -> "M" ^ hex d
   | CUnknown -> "U"
 
-let read_txt (file : coq_Z list) : string =
+let read_txt file : string =
   match read_all file with
   | Err e -> "hdr-err:" ^ err_txt e
   | Panic _ -> "hdr-panic"
